@@ -164,7 +164,7 @@ pub fn run(ctx: &Ctx) -> Report {
     }
     let mut rep = Report::new();
     let corp = corpus::load(&ctx.verif);
-    let budget = ctx.tier.pick(250_000u64, 6_000_000);
+    let budget = ctx.tier.pick(250_000u64, 1_500_000);
     // every corpus position at depth 1..3 (sharded), no history
     for (i, fen) in corp.fens.iter().enumerate() {
         if i % ctx.shard_count() != ctx.shard_index() {
@@ -187,7 +187,7 @@ pub fn run(ctx: &Ctx) -> Report {
             }
         }
     }
-    let cases = ctx.tier.pick(1600, 40_000) / ctx.shard_count() as u32;
+    let cases = ctx.tier.pick(1600, 16_000) / ctx.shard_count() as u32;
     let mix = gen::StartMix { startpos: 1, corpus: 4, synth: 6, pattern: 6 };
     run_prop(ctx, "c11", cases, 300, strategy(), &mut rep, |c, rep| {
         let Some((start, label)) = gen::start_pos(&c.game.start, &corp, mix) else {
